@@ -32,6 +32,26 @@ func wasmRunner(env *core.Env) (*sut.WasmRunner, error) {
 }
 
 func c02Gen(t *rapid.T, env *core.Env) any {
+	// two more families: indexing programs (C04/C08's generator) and constant-rich programs (C09's)
+	switch rapid.IntRange(0, 9).Draw(t, "family") {
+	case 0, 1:
+		kind := rapid.SampledFrom([]string{"fixed", "fixed", "dyn", "str"}).Draw(t, "ixkind")
+		p := fer.GenerateIndexing(t, kind, env.Use)
+		out := fer.Run(p)
+		c := &progCase{Src: p.Source(), Expect: out.Lines, Term: out.Term, Features: p.Features, Stats: map[string]int{"steps": out.Steps}}
+		if out.Err != "" {
+			c.Discard = "model: " + out.Err
+		}
+		return c
+	case 2, 3:
+		p := fer.GenerateConsts(t, env.Use)
+		out := fer.Run(p)
+		c := &progCase{Src: p.Source(), Expect: out.Lines, Term: out.Term, Features: p.Features, Stats: map[string]int{"steps": out.Steps}}
+		if out.Err != "" {
+			c.Discard = "model: " + out.Err
+		}
+		return c
+	}
 	// the intersection both back ends accept today, plus one probing feature at a time
 	cfg := fer.Config{Structs: true, Methods: true, Enums: true, Fixed: true, Dyn: true, Refs: true, Recursion: true, Narrow: true, MaxScen: 5}
 	switch rapid.IntRange(0, 9).Draw(t, "probe") {
@@ -215,7 +235,7 @@ func c02Check(env *core.Env, ci any) (res core.Result) {
 func init() {
 	core.Register(&core.Prop{
 		ID:    "C02",
-		Rule:  "rapid-generated programs from the fer model restricted to what both back ends accept today (ints up to 64 bit incl. 8/16-bit, bool, nested structs, methods, enums/match, fixed and dynamic arrays, references, loops, recursion; one of strings/results/closures as a probing feature in 30% of the cases) plus, in half of the cases, a float scenario (f32/f64 arithmetic, comparisons, int<->float casts, accumulation loop); compiled for native and wasm, run natively and under node with the shipped runtime.js (fresh runtime per module, worker thread). Oracle: equal termination kind and equal value sequence (stdout split on white space; tokens with a fraction/exponent compared numerically, rel. tol. 1e-5). A compile failure or LinkError on either side puts the case outside the property (counted as discard). non-trivial = accepted and run on both sides with >= 6 printed values; distinct = hash of the program text",
+		Rule:  "three generator families: (60%) rapid-generated programs from the fer model restricted to what both back ends accept today (ints up to 64 bit incl. 8/16-bit, bool, nested structs, methods, enums/match, fixed and dynamic arrays, references, loops, recursion; one of strings/results/closures as a probing feature in 30% of the cases) plus, in half of these cases, a float scenario (f32/f64 arithmetic, comparisons, int<->float casts, accumulation loop); (20%) indexing programs over one fixed array / dynamic array / string with literal, const, let, arithmetic and parameter indices, in and out of range (generator of C04/C08); (20%) constant-rich programs (named consts and lets with constant-expression initialisers used as indices, range bounds/steps, match scrutinees, conditions; generator of C09); compiled for native and wasm, run natively and under node with the shipped runtime.js (fresh runtime per module, worker thread). Oracle: equal termination kind and equal value sequence (stdout split on white space; tokens with a fraction/exponent compared numerically, rel. tol. 1e-5). A compile failure or LinkError on either side puts the case outside the property (counted as discard). non-trivial = accepted and run on both sides with >= 6 printed values; distinct = hash of the program text",
 		Gen:   c02Gen,
 		New:   func() any { return &progCase{} },
 		Check: c02Check,
